@@ -5,15 +5,18 @@ import os
 
 ROOT = os.path.dirname(os.path.dirname(os.path.abspath(__file__)))
 
-CLAIMED = {
-    "C18": {
-        "category": "proof",
-        "text": "Coq theorems (Properties_C18.v) prove, for all vectors, index lists, triangle lists, maps and strips (no size bound), that loop-faithful models of EraseVectorIndices, ApplyMapToTriangles, GenerateIndexCollapseMap and GenerateTrianglesFromStrips equal their naive definitions and never access outside their containers; the models are tied to include/NifUtil.hpp by running the extracted models and the C++ templates (ASan/UBSan) on the same exhaustive-small + random cases on every run. InsertVectorIndices / GenerateIndexExpandMap are modelled and differential-tested against the naive spec; their theorems are listed as unproved in evidence.",
-        "design_ref": "DESIGN.md 5.1, 6 (C18)",
-        "note": "trusted: Coq kernel, extraction (ExtrOcamlBasic only), OCaml/C++/Python glue of the correspondence check; std::vector modelled as list with faulting get/set; hypotheses: vector length < 2^w, strictly ascending index list for functional statements",
-        "technique": "Coq proof (induction over loop fuel, invariant lemmas) + model/implementation differential correspondence",
-    },
-}
+def load_claimed():
+    """one fragment per claimed property: tools/props/<id>.manifest.json with keys
+    category, text, design_ref, note, technique"""
+    out = {}
+    for f in sorted(os.listdir(os.path.join(ROOT, "tools", "props"))):
+        if f.endswith(".manifest.json"):
+            out[f.split(".")[0]] = json.load(open(os.path.join(ROOT, "tools", "props", f)))
+    return out
+
+
+CLAIMED = load_claimed()
+NOT_APPLICABLE = {}   # property id -> reason, for properties deliberately not claimed
 
 NOT_YET = "check under construction in this round (see DESIGN.md section 6); not yet claimed"
 
@@ -54,7 +57,7 @@ def main():
                 "technique": c["technique"],
             })
         else:
-            m["not_applicable"].append({"property_id": pid, "reason": NOT_YET})
+            m["not_applicable"].append({"property_id": pid, "reason": NOT_APPLICABLE.get(pid, NOT_YET)})
     json.dump(m, open(os.path.join(ROOT, "MANIFEST.json"), "w"), indent=1)
 
 
